@@ -54,6 +54,9 @@ fn udp_pairs() -> Vec<(SocketAddr, SocketAddr)> {
         (p("[::1]:29999"), p("0.0.0.0:513")),
         (remote(), p("127.0.0.1:65535")),
         (p("10.1.2.3:1"), p("192.168.0.9:256")),
+        // a loopback local address towards a remote that is not (a relation between the two arguments)
+        (p("192.168.1.5:29999"), p("127.0.0.1:30005")),
+        (p("[2001:db8::1]:29999"), p("[::1]:30006")),
     ]
 }
 
@@ -73,7 +76,7 @@ fn apply(b: Builder, s: &Set) -> Builder {
         },
         Set::Flags(k) => b.isi_flags(match k { 0 => IsiFlags::empty(), 1 => IsiFlags::all(), 2 => IsiFlags::MCI | IsiFlags::CON, _ => IsiFlags::from_bits_retain(0xf003 | (1 << 4) | (1 << 5)) }),
         Set::Prefix(k) => b.isi_prefix(match k { 0 => None, _ => Some('!') }),
-        Set::Interval(k) => b.isi_interval(match k { 0 => None, 1 => Some(Duration::ZERO), _ => Some(Duration::from_secs(1)) }),
+        Set::Interval(k) => b.isi_interval(match k { 0 => None, 1 => Some(Duration::ZERO), 2 => Some(Duration::from_secs(1)), 3 => Some(Duration::from_micros(500)), 4 => Some(Duration::from_nanos(1)), _ => Some(Duration::from_micros(16_667)) }),
         Set::IName(k) => b.isi_iname(match k { 0 => None, _ => Some("x".to_string()) }),
         Set::Admin(k) => b.isi_admin_password(match k { 0 => None, _ => Some("pw".to_string()) }),
         Set::Reqi(k) => b.isi_reqi(RequestId(*k)),
@@ -114,7 +117,7 @@ fn ref_apply(r: &mut Ref, s: &Set) {
         Set::Flag(i, on) => { let bit = 1u16 << FLAG_BITS[*i as usize]; if *on { r.flags |= bit } else { r.flags &= !bit } },
         Set::Flags(k) => r.flags = match k { 0 => 0, 1 => 0b1111_1111_1100, 2 => (1 << 5) | (1 << 6), _ => 0xf003 | (1 << 4) | (1 << 5) },
         Set::Prefix(k) => r.prefix = if *k == 0 { None } else { Some('!') },
-        Set::Interval(k) => r.interval = match k { 0 => None, 1 => Some(Duration::ZERO), _ => Some(Duration::from_secs(1)) },
+        Set::Interval(k) => r.interval = match k { 0 => None, 1 => Some(Duration::ZERO), 2 => Some(Duration::from_secs(1)), 3 => Some(Duration::from_micros(500)), 4 => Some(Duration::from_nanos(1)), _ => Some(Duration::from_micros(16_667)) },
         Set::IName(k) => r.iname = if *k == 0 { None } else { Some("x".into()) },
         Set::Admin(k) => r.admin = if *k == 0 { None } else { Some("pw".into()) },
         Set::Reqi(k) => r.reqi = *k,
@@ -149,13 +152,14 @@ fn alphabet(tier: Tier) -> Vec<Set> {
     // (the fourth value carries the six bits InSim leaves unnamed: a wholesale replacement keeps them, a flag helper touches its own bit only)
     for k in 0..4 { v.push(Set::Flags(k)); }
     for k in 0..2 { v.push(Set::Prefix(k)); }
-    for k in 0..3 { v.push(Set::Interval(k)); }
+    // (intervals below the field's resolution and with a remainder: the builder passes on what it was given, the codec floors)
+    for k in 0..(if tier == Tier::Thorough { 6 } else { 4 }) { v.push(Set::Interval(k)); }
     for k in 0..2 { v.push(Set::IName(k)); }
     for k in 0..2 { v.push(Set::Admin(k)); }
     for k in [0u8, 1, 255] { v.push(Set::Reqi(k)); }
     v.extend([Set::Tcp, Set::UdpNone, Set::Compressed, Set::Uncompressed, Set::Relay]);
     // quick: same family, IPv6 wildcard towards IPv4, IPv4 local towards IPv6 with a port whose two bytes differ; thorough: all six
-    for k in 0..udp_pairs().len() as u8 { if tier == Tier::Thorough || [0, 1, 3].contains(&k) { v.push(Set::UdpSome(k)); } }
+    for k in 0..udp_pairs().len() as u8 { if tier == Tier::Thorough || [0, 1, 3, 6].contains(&k) { v.push(Set::UdpSome(k)); } }
     v
 }
 
@@ -233,6 +237,7 @@ fn isi_configs() -> Vec<(&'static str, Vec<Set>)> {
     vec![
         ("default", vec![]),
         ("flags+interval", vec![Set::Flags(2), Set::Interval(2)]),
+        ("flags+sub-millisecond-interval", vec![Set::Flags(2), Set::Interval(3)]),
         ("prefix", vec![Set::Prefix(1)]),
         ("iname+admin", vec![Set::IName(1), Set::Admin(1)]),
         ("reqi255", vec![Set::Reqi(255)]),
@@ -481,7 +486,7 @@ pub fn run(tier: Tier, replay: Option<String>) -> i32 {
     let _ = extra.insert("host_carries_ipv6_loopback".into(), json!(v6_loopback));
     crate::report::finish(crate::report::Outcome {
         property: "C18".into(), tier, level: "model_checking", acc,
-        rule: format!("all builder states reachable with a {}-setter alphabet ({} flag helpers on/off, wholesale flags x4 (one with the unnamed bits set), prefix x2, interval x3, iname x2, admin x2, reqi x3, tcp, udp without a local address and with 3 (quick) / 6 (thorough) (remote, local) address pairs across both address families, compressed, uncompressed, relay); every transition replays the setter history on a fresh Builder and compares isi() with a reference builder; plus {connects} connects (tcp / udp without / with local address - IPv4, IPv6 wildcard towards an IPv4 peer, IPv6 loopback where the host carries them - x mode x blocking/tokio x 12 ISI configurations incl. a builder that was a relay builder before and every option unrelated to the ISI x size mode chosen first / last); every subset of the 8 unrelated options on 3 base builders against loopback peers; plus names and passwords of every length 0..=40, with multi-byte characters / carets at every offset 0..=20, and every string of the text generator for a 16-byte field (ten families, lengths 0..=32, characters of no code page, texts of 2^8..2^17 characters)", alpha.len(), if tier == Tier::Thorough { 10 } else { 5 }),
+        rule: format!("all builder states reachable with a {}-setter alphabet ({} flag helpers on/off, wholesale flags x4 (one with the unnamed bits set), prefix x2, interval x3, iname x2, admin x2, reqi x3, tcp, udp without a local address and with 4 (quick) / 8 (thorough) (remote, local) address pairs across both address families, compressed, uncompressed, relay); every transition replays the setter history on a fresh Builder and compares isi() with a reference builder; plus {connects} connects (tcp / udp without / with local address - IPv4, IPv6 wildcard towards an IPv4 peer, IPv6 loopback where the host carries them - x mode x blocking/tokio x 12 ISI configurations incl. a builder that was a relay builder before and every option unrelated to the ISI x size mode chosen first / last); every subset of the 8 unrelated options on 3 base builders against loopback peers; plus names and passwords of every length 0..=40, with multi-byte characters / carets at every offset 0..=20, and every string of the text generator for a 16-byte field (ten families, lengths 0..=32, characters of no code page, texts of 2^8..2^17 characters)", alpha.len(), if tier == Tier::Thorough { 10 } else { 5 }),
         exhaustive: true, extra,
         assumptions: vec!["state key = Debug rendering of the real Builder + the reference ISI".into(), "UDP without a local address is expected to announce UDPPort 0 (LFS then replies to the source port)".into()],
         started,
